@@ -221,6 +221,7 @@ def run_races(ctx, out, jobs, clauses, label):
             fault=job.get("fault", "none"),
             req_variant=job.get("req_variant", "conn_error"),
             fault_delay=job.get("fault_delay", 0),
+            lenient=job.get("lenient", ()),
         )
         if os.environ.get("VERIF_DEBUG_RACE") == tid:
             import logging
@@ -263,7 +264,7 @@ def run_races(ctx, out, jobs, clauses, label):
                 continue
             bad.add(tid)
             first = min(ln for ln, cl in fails if set(cl) & clauses)
-            case = {"scn": job["scn"], "seed": job["seed"], "test_mode": test_mode, "qmax": qmax, "offsets": job.get("offsets"), "fault": job.get("fault", "none"), "req_variant": job.get("req_variant", "conn_error"), "decisions": [(e["ev"], e["arg"]) for e in trace["events"] if e["ev"] != "Hang"]}
+            case = {"scn": job["scn"], "seed": job["seed"], "test_mode": test_mode, "qmax": qmax, "offsets": job.get("offsets"), "fault": job.get("fault", "none"), "req_variant": job.get("req_variant", "conn_error"), "lenient": list(job.get("lenient", ())), "decisions": [(e["ev"], e["arg"]) for e in trace["events"] if e["ev"] != "Hang"]}
             out.violations.append(Violation(",".join(mine), case, signature={"clauses": mine, "scenario": scn_signature(job["scn"]), "fault": job.get("fault", "none")}, detail="trace %s first failing event %d (%s)" % (tid, first, trace["events"][first - 1]["ev"])))
         for tid, lines in v.l2.items():
             if tid in bad:
@@ -325,7 +326,7 @@ def replay_case(ctx, case, clauses, pid):
     from ..core import Outcome
 
     out = Outcome(pid)
-    job = {"scn": case["scn"], "script": [tuple(x) for x in case["decisions"]], "seed": case["seed"], "test_mode": case["test_mode"], "qmax": case["qmax"], "offsets": case.get("offsets"), "fault": case.get("fault", "none"), "req_variant": case.get("req_variant", "conn_error")}
+    job = {"scn": case["scn"], "script": [tuple(x) for x in case["decisions"]], "seed": case["seed"], "test_mode": case["test_mode"], "qmax": case["qmax"], "offsets": case.get("offsets"), "fault": case.get("fault", "none"), "req_variant": case.get("req_variant", "conn_error"), "lenient": case.get("lenient", ())}
     run_races(ctx, out, [job], clauses, "replay")
     for v in out.violations:
         print("VIOLATION property=%s clause=%s %s" % (pid, v.clause, v.detail))
